@@ -230,17 +230,16 @@ impl UnifiedDiff {
                     if self.unexpected_start.is_none() {
                         self.unexpected_start = Some(expectation_index)
                     }
-                    self.unexpected_lines.extend(
-                        lines
-                            .iter()
-                            .map(|(i, l)| {
-                                Ok((
-                                    *i,
-                                    String::from_utf8((l as &[u8]).trim_newlines().to_vec())?,
-                                ))
-                            })
-                            .collect::<Result<Vec<_>>>()?,
-                    );
+                    // render unprintable / non UTF-8 output the way a (re-)generated
+                    // test would spell it, instead of failing on it
+                    self.unexpected_lines.extend(lines.iter().map(|(i, l)| {
+                        (
+                            *i,
+                            outcome
+                                .escaping
+                                .escaped_expectation((l as &[u8]).trim_newlines()),
+                        )
+                    }));
                     if self.unmatched_start.is_some() {
                         add_diff_hunk!();
                     }
